@@ -1,6 +1,8 @@
 //! Copied from https://raw.githubusercontent.com/kevinmehall/codemap/master/src/lib.rs
 
 #![allow(dead_code)]
+#[cfg(mos_verif_threads)]
+use mos_simrt::std_shim as std;
 use codespan_reporting::diagnostic::Label;
 use serde::Serialize;
 use std::cmp::{self, Ordering};
